@@ -132,7 +132,7 @@ public:
     mutex.lock();
     bool ret = false;
 
-    if (x == *orderedSet.begin()) {
+    if (!orderedSet.empty() && x == *orderedSet.begin()) {
       orderedSet.erase(orderedSet.begin());
       ret = true;
     } else {
@@ -209,7 +209,7 @@ public:
   template <typename Iter>
   MinHeap(Iter b, Iter e, const Cmp& cmp = Cmp())
       : container(b, e), revCmp(cmp) {
-    std::make_heap(container.begin(), container.end());
+    std::make_heap(container.begin(), container.end(), revCmp);
   }
 
   bool empty() const { return container.empty(); }
@@ -240,7 +240,9 @@ public:
     bool ret = false;
 
     // TODO: write a better remove method
-    if (x == top()) {
+    if (container.empty()) {
+      // nothing to remove (and no top() to compare with)
+    } else if (x == top()) {
       pop();
       ret = true;
     } else {
